@@ -1,7 +1,7 @@
 SPECIFICATION Spec
 CONSTANT MaxDepth = 8
 CONSTANT AsBuiltRemove = FALSE
-CONSTANT Families = {"struct", "mkinds", "gkinds"}
+CONSTANT Families = {"struct", "mkinds", "gkinds", "params2"}
 CONSTANT StructGates = {"X", "W", "Z"}
 CONSTANT StructDeclare = TRUE
 CONSTANT StructW2 = TRUE
